@@ -2271,56 +2271,174 @@ Proof.
   destruct Hk as [->| ->]; discriminate.
 Qed.
 
+(** with replayed headers a kernel view may differ from the last marked one, but not in
+    (height, round, version) *)
+Definition veq (a b : view) : Prop := samepos a b /\ v_ver a = v_ver b.
+
+Lemma veq_refl a : veq a a.
+Proof. repeat split. Qed.
+Lemma veq_trans a b c : veq a b -> veq b c -> veq a c.
+Proof. unfold veq, samepos. intros ((A1&A2)&A3) ((B1&B2)&B3). repeat split; congruence. Qed.
+
+Definition SYW3 (t t' : vs3) (new : list mev) : Prop :=
+  forall k, is_slot k -> veq (last_mark k new (get3 t k)) (get3 t' k).
+
+Definition SYW (s s' : kstate) : Prop :=
+  exists new, st_ev s' = st_ev s ++ new /\ SYW3 (views s) (views s') new.
+
+Lemma last_mark_indep k : forall n,
+  (forall d, last_mark k n d = d) \/ (forall d d', last_mark k n d = last_mark k n d').
+Proof.
+  induction n as [|e n IH]; [left; reflexivity|].
+  destruct e as [vid m| | |]; cbn [last_mark]; try (destruct IH as [A|B]; [left; exact A|right; intros d d'; apply B]).
+  destruct (slot vid =? k); [right; reflexivity|]. destruct IH as [A|B]; [left; exact A|right; intros d d'; apply B].
+Qed.
+
+Lemma SY_SYW s s' : SY s s' -> SYW s s'.
+Proof. intros (new&E&H). exists new. split; [exact E|]. intros k Hk. rewrite (H k Hk). apply veq_refl. Qed.
+
+Lemma SYW_refl s : SYW s s.
+Proof. apply SY_SYW, SY_refl. Qed.
+
+Lemma SYW_trans a b c : SYW a b -> SYW b c -> SYW a c.
+Proof.
+  intros (n1&E1&H1) (n2&E2&H2). exists (n1 ++ n2). split; [rewrite E2, E1, app_assoc; reflexivity|].
+  intros k Hk. rewrite last_mark_app. specialize (H1 k Hk). specialize (H2 k Hk).
+  destruct (last_mark_indep k n2) as [A|B].
+  - rewrite A in *. eapply veq_trans; eassumption.
+  - rewrite (B _ (get3 (views b) k)). exact H2.
+Qed.
+
+Lemma SYW_put_silent s vid w s2 :
+  views s2 = put3 (views s) vid w -> st_ev s2 = st_ev s -> veq (get_view s vid) w -> SYW s s2.
+Proof.
+  intros Hv He Hq. exists []. split; [rewrite He; symmetry; apply app_nil_r|]. rewrite Hv.
+  rewrite get_view_get3 in Hq. destruct (views s) as [[c v] n]. intros k Hk. cbn [last_mark].
+  unfold put3, get3 in *.
+  destruct (vid =? ViewIDVoting); [|destruct (vid =? ViewIDCommitting)];
+    destruct Hk as [->|[->| ->]]; cbn; first [exact Hq|apply veq_refl].
+Qed.
+
+Lemma SY_jump_until fuel : forall s r, SY s (jump_until fuel s r).
+Proof.
+  induction fuel as [|f IH]; intros s r; cbn [jump_until]; [apply SY_refl|].
+  destruct (_ <? _); [|apply SY_refl]. eapply SY_trans; [apply SY_jump|apply IH].
+Qed.
+
+Lemma SYW_handle_replay s0 hd cp s' res : handle_replay s0 hd cp = Ok (s', res) -> SYW s0 s'.
+Proof.
+  unfold handle_replay.
+  destruct (negb (hd_height hd =? _)); [intros E; inversion E; subst; apply SYW_refl|].
+  destruct (cp_round cp <? _); [discriminate|].
+  pose proof (SY_SYW _ _ (SY_jump_until (N.to_nat (cp_round cp - v_r (k_vot s0))) s0 (cp_round cp))) as T0.
+  set (s := jump_until _ s0 _) in *.
+  destruct (negb ((v_r (k_vot s) =? cp_round cp) && (v_h (k_vot s) =? hd_height hd))); [discriminate|].
+  assert (Hsame : forall r0, Ok (s, r0) = Ok (s', res) -> SYW s0 s')
+    by (intros r0 E; inversion E; subst; exact T0).
+  destruct (negb (hd_ok hd)); [apply Hsame|].
+  destruct (negb (hd_height hd =? k_init_h s) && negb (bytes_eqb (hd_prev hd) (chdr_hash s))); [apply Hsame|].
+  destruct (negb (valset_equal (hd_vals hd) (v_vals (k_vot s)) && vs_ok (hd_vals hd))); [apply Hsame|].
+  destruct (negb (vs_ok (hd_next hd))); [apply Hsame|].
+  destruct (fold_left _ (cp_proofs cp) ([], true)) as [temp allv].
+  destruct (negb allv); [apply Hsame|].
+  fold (replay_insert s hd (cp_round cp)).
+  unfold bind at 1. destruct (replay_insert s hd (cp_round cp)) as [s1|] eqn:Hins; [|discriminate].
+  assert (T1 : SYW s0 s1).
+  { eapply SYW_trans; [exact T0|]. unfold replay_insert in Hins.
+    destruct (existsb _ (v_phs _)); [inversion Hins; subst; apply SYW_refl|].
+    destruct (existsb _ (st_rounds s)); inversion Hins; subst;
+      apply (SYW_put_silent _ ViewIDVoting (with_phs (k_vot s) (v_phs (k_vot s) ++ [fake_ph hd (cp_round cp)])));
+      try reflexivity; repeat split. }
+  destruct (pm_get temp (hd_hash hd)); [|intros E; inversion E; subst; exact T1].
+  unfold bind at 1. destruct (byz_majority _); [|discriminate].
+  destruct (_ <? _); [intros E; inversion E; subst; exact T1|].
+  unfold bind. destruct (check_voting_precommit_shift _) as [s3|] eqn:Hc; [|discriminate].
+  intros E; inversion E; subst.
+  match type of Hc with check_voting_precommit_shift ?X = _ => set (s2 := X) in * end.
+  eapply SYW_trans; [exact T1|]. eapply SYW_trans; [|apply SY_SYW, SY_check_voting; exact Hc].
+  set (pc' := fold_left (fun m e => pm_set m (fst e) (snd e)) temp (v_pc (k_vot s1))) in *.
+  apply (SYW_put_silent s1 ViewIDVoting
+           (with_sum (with_pc (k_vot s1) pc') (sum_set_precommits (v_sum (with_pc (k_vot s1) pc')) (vs_pows (v_vals (with_pc (k_vot s1) pc'))) pc')));
+    try reflexivity. repeat split.
+Qed.
+
+Theorem SYW_step s o s' res : auth_state s -> step s o = Ok (s', res) -> SYW s s'.
+Proof.
+  intros Ha Hs. destruct o as [p|m|m|x cp].
+  - apply SY_SYW. exact (SY_step s (OpPH p) s' res Ha eq_refl Hs).
+  - apply SY_SYW. exact (SY_step s (OpPrevote m) s' res Ha eq_refl Hs).
+  - apply SY_SYW. exact (SY_step s (OpPrecommit m) s' res Ha eq_refl Hs).
+  - cbn [step] in Hs. eapply SYW_handle_replay; exact Hs.
+Qed.
+
+Lemma mk_step_syncw s o s1 r io :
+  auth_state (ms_k s) -> mstep s (MK (XOp o)) = Ok (s1, r, io) ->
+  auth_state (ms_k s1) /\
+  exists new, st_ev (ms_k s1) = st_ev (ms_k s) ++ new /\ TR3 (views (ms_k s)) (views (ms_k s1)) new /\
+              SYW3 (views (ms_k s)) (views (ms_k s1)) new /\ ms_m s1 = fold_left mgr_step new (ms_m s).
+Proof.
+  intros Ha Hs. destruct (mk_step_facts _ _ _ _ _ Hs) as (new&He&H3&Hm&_).
+  revert Hs. cbn [mstep xstep is_restart_x]. unfold bind. destruct (step (ms_k s) o) as [[k' r1]|] eqn:Hst; [|discriminate].
+  intros E; inversion E; subst. cbn [ms_k ms_m] in *.
+  split; [eapply auth_step; eassumption|].
+  destruct (SYW_step _ _ _ _ Ha Hst) as (new2&He2&H2).
+  assert (new2 = new) by (rewrite He in He2; apply app_inv_head in He2; symmetry; exact He2). subst new2.
+  exists new. split; [exact He|]. split; [exact H3|]. split; [exact H2|exact Hm].
+Qed.
+
 Definition LI (sm : smm) (t : vs3) : Prop :=
   smm_last sm = 0 \/ exists b, smm_last sm = v_ver b /\ v_h b = smm_h sm /\ v_r b = smm_r sm /\ past b t.
 
+(** when the kernel's voting / committing view of the entered round is newer than what was sent,
+    the kept view is of that round and has the kernel view's version *)
 Definition CI (sm : smm) (t : vs3) : Prop :=
   forall vid, vid = ViewIDVoting \/ vid = ViewIDCommitting ->
   v_h (get3 t vid) = smm_h sm -> v_r (get3 t vid) = smm_r sm -> smm_last sm < v_ver (get3 t vid) ->
-  smm_out sm = get3 t vid.
+  v_h (smm_out sm) = smm_h sm /\ v_r (smm_out sm) = smm_r sm /\ v_ver (smm_out sm) = v_ver (get3 t vid).
 
 Lemma is_slot_vc vid : vid = ViewIDVoting \/ vid = ViewIDCommitting -> is_slot vid.
 Proof. intros [->| ->]; [left|right; left]; reflexivity. Qed.
 
 Lemma sm_sync_events t t' new h r last out vid :
-  Forall ev_ok new -> kinv t -> TR3 t t' new -> SY3 t t' new ->
+  Forall ev_ok new -> kinv t -> TR3 t t' new -> SYW3 t t' new ->
   vid = ViewIDVoting \/ vid = ViewIDCommitting ->
   (forall vid0, vid0 = ViewIDVoting \/ vid0 = ViewIDCommitting ->
-     v_h (get3 t vid0) = h -> v_r (get3 t vid0) = r -> last < v_ver (get3 t vid0) -> out = get3 t vid0) ->
+     v_h (get3 t vid0) = h -> v_r (get3 t vid0) = r -> last < v_ver (get3 t vid0) ->
+     v_h out = h /\ v_r out = r /\ v_ver out = v_ver (get3 t vid0)) ->
   v_h (get3 t' vid) = h -> v_r (get3 t' vid) = r -> last < v_ver (get3 t' vid) ->
-  track (sm_hit h r) new out = get3 t' vid.
+  v_h (track (sm_hit h r) new out) = h /\ v_r (track (sm_hit h r) new out) = r /\
+  v_ver (track (sm_hit h r) new out) = v_ver (get3 t' vid).
 Proof.
   intros Hok Hk H3 HY Hvid Hpre Hh Hr Hlt.
   destruct (H3 Hok Hk) as (K1&S&P&M&Nn&O). rewrite Forall_forall in M, Nn.
   pose proof (HY vid (is_slot_vc vid Hvid)) as HK. rewrite last_mark_track in HK.
   destruct (track_last (sm_hit h r) new out) as [[NoHit Eo]|(l1&e&l2&y&En&Hy&NoHit2&Eo)];
-  destruct (track_last (lm_hit vid) new (get3 t vid)) as [[NoM Ek]|(l1'&e'&l2'&y'&En'&Hy'&NoM2&Ek)].
-  - rewrite Eo. rewrite Ek in HK. rewrite <- HK in *. apply Hpre; assumption.
-  - exfalso. rewrite Ek in HK. rewrite <- HK in *.
-    pose proof (lm_hit_sm_hit vid h r e' y' Hvid Hy' Hh Hr) as Hs.
+  destruct (track_last (lm_hit vid) new (get3 t vid)) as [[NoM Ek]|(l1'&e'&l2'&y'&En'&Hy'&NoM2&Ek)];
+  rewrite Ek in HK; destruct HK as ((HKh&HKr)&HKv); rewrite Eo.
+  - rewrite <- HKv. apply (Hpre vid Hvid); congruence.
+  - exfalso.
+    assert (Hs : sm_hit h r e' = Some y') by (apply (lm_hit_sm_hit vid h r e' y' Hvid Hy'); congruence).
     rewrite Forall_forall in NoHit. rewrite (NoHit e') in Hs; [discriminate|]. rewrite En'. apply in_or_app. right. left. reflexivity.
-  - exfalso. rewrite Ek in HK. rewrite <- HK in *.
+  - exfalso.
     destruct (sm_hit_some _ _ _ _ Hy) as (vid0&Ee&Yh&Yr). subst e.
     assert (Hin : In (EvMark vid0 y) new) by (rewrite En; apply in_or_app; right; left; reflexivity).
     pose proof (proj2 (Nn _ Hin)) as Np. pose proof (proj2 (M _ Hin)) as Ms.
-    assert (Sp : samepos y (get3 t vid)) by (split; congruence).
-    assert (Q1 : vq y (get3 t' vid)) by (apply past_below_get3; [exact Np|rewrite <- HK; split; congruence]).
+    assert (Q1 : vq y (get3 t' vid)) by (apply past_below_get3; [exact Np|split; congruence]).
     assert (Q2 : vqs (get3 t vid) y) by (apply Ms; [apply past_get3; exact Hk|split; congruence]).
-    rewrite <- HK in Q1. destruct Q1 as [Q1 _]. destruct Q2 as [Q2 _]. lia.
-  - rewrite Eo. rewrite Ek in HK. rewrite <- HK in *.
-    destruct (sm_hit_some _ _ _ _ Hy) as (vid0&Ee&Yh&Yr). destruct (lm_hit_some _ _ _ Hy') as (vid1&Ee'&Es'). subst e e'.
+    destruct Q1 as [Q1 _]. destruct Q2 as [Q2 _]. lia.
+  - destruct (sm_hit_some _ _ _ _ Hy) as (vid0&Ee&Yh&Yr). destruct (lm_hit_some _ _ _ Hy') as (vid1&Ee'&Es'). subst e e'.
     assert (Hin : In (EvMark vid0 y) new) by (rewrite En; apply in_or_app; right; left; reflexivity).
-    rewrite En in En'. destruct (app_cons_tri _ _ _ _ _ _ En') as [(_&Eab&_)|[Hab|Hba]].
-    + inversion Eab; reflexivity.
-    + exfalso. assert (En2 : new = l1' ++ EvMark vid1 y' :: l2') by (rewrite En; exact En').
-      rewrite En2 in O. apply ord_pairs_app_inv in O as (_&O2&_). cbn [ord_pairs] in O2. destruct O2 as [O2 _].
+    assert (En2 : l1 ++ EvMark vid0 y :: l2 = l1' ++ EvMark vid1 y' :: l2') by (rewrite <- En; exact En').
+    destruct (app_cons_tri _ _ _ _ _ _ En2) as [(_&Eab&_)|[Hab|Hba]].
+    + inversion Eab; subst. repeat split; congruence.
+    + exfalso. rewrite En' in O. apply ord_pairs_app_inv in O as (_&O2&_). cbn [ord_pairs] in O2. destruct O2 as [O2 _].
       rewrite Forall_forall in O2. specialize (O2 _ Hab). cbn [ev_rel] in O2. destruct O2 as [_ O2].
       assert (Q2 : vqs y' y) by (apply O2; split; congruence).
       pose proof (proj2 (Nn _ Hin)) as Np.
-      assert (Q1 : vq y (get3 t' vid)) by (apply past_below_get3; [exact Np|rewrite <- HK; split; congruence]).
-      rewrite <- HK in Q1. destruct Q1 as [Q1 _]. destruct Q2 as [Q2 _]. lia.
+      assert (Q1 : vq y (get3 t' vid)) by (apply past_below_get3; [exact Np|split; congruence]).
+      destruct Q1 as [Q1 _]. destruct Q2 as [Q2 _]. lia.
     + exfalso. rewrite Forall_forall in NoHit2. pose proof (NoHit2 _ Hba) as X.
-      rewrite (lm_hit_sm_hit vid h r (EvMark vid1 y') y' Hvid Hy' Hh Hr) in X. discriminate.
+      rewrite (lm_hit_sm_hit vid h r (EvMark vid1 y') y' Hvid Hy') in X; [discriminate|congruence|congruence].
 Qed.
 
 Definition SC (s : mstate) : Prop :=
@@ -2353,7 +2471,7 @@ Proof.
 Qed.
 
 Lemma sc_run : forall ops s s' ios,
-  forallb plain_op ops = true -> mrun s ops = Ok (s', ios) ->
+  forallb no_restart ops = true -> mrun s ops = Ok (s', ios) ->
   Forall ev_ok (st_ev (ms_k s')) -> SC s -> SC s'.
 Proof.
   induction ops as [|o rest IH]; intros s s' ios Hall; cbn [mrun].
@@ -2362,14 +2480,14 @@ Proof.
     destruct (mstep s o) as [[[s1 r] io]|] eqn:Hs; [|discriminate].
     destruct (mrun s1 rest) as [[s2 ios2]|] eqn:Hm; [|discriminate].
     intros E; inversion E; subst. intros Hok (HSG&HLI&HCI&Ha).
-    destruct (mrun_ext _ _ _ _ (plain_no_restart _ Hr) Hm) as (n2&E2). pose proof Hok as Hfin. rewrite E2 in Hok. apply ok_prefix in Hok as [Hok1 Hok2].
+    destruct (mrun_ext _ _ _ _ Hr Hm) as (n2&E2). pose proof Hok as Hfin. rewrite E2 in Hok. apply ok_prefix in Hok as [Hok1 Hok2].
     apply (IH s1 s' ios2 Hr Hm Hfin).
     assert (HSG1 : SG s1).
-    { apply (sg_run [o] s s1 [io]); [cbn [forallb]; rewrite andb_true_r; destruct o as [[o'| |]| | |]; try reflexivity; discriminate
+    { apply (sg_run [o] s s1 [io]); [cbn [forallb]; rewrite andb_true_r; exact Ho
                                     |cbn [mrun]; rewrite Hs; reflexivity|exact Hok1|exact HSG]. }
     split; [exact HSG1|]. destruct HSG as [Hkinv Hout]. unfold sm_of in *.
-    destruct o as [[o| |]|h0 r0| |]; cbn [plain_op] in Ho; try discriminate.
-    + destruct (mk_step_sync _ _ _ _ _ Ha Ho Hs) as (Ha1&new&He&H3&HY&Hm1).
+    destruct o as [[o| |]|h0 r0| |]; cbn [no_restart is_restart_x negb] in Ho; try discriminate.
+    + destruct (mk_step_syncw _ _ _ _ _ Ha Hs) as (Ha1&new&He&H3&HY&Hm1).
       rewrite He in Hok1. apply ok_prefix in Hok1 as [Hok0 Hoknew].
       destruct (H3 Hoknew Hkinv) as (K1&S&P&M&Nn&O).
       destruct (fold_mgr_step_sm_fixed new (ms_m s)) as (Fh&Fr&Fl).
@@ -2430,9 +2548,10 @@ Proof.
   destruct (smm_jump m); rewrite H0 in Ho; discriminate.
 Qed.
 
+(** all histories without crash / restart, replayed headers included *)
 Theorem sm_current_after_empty_read ih ivs ops s' ios s'' c :
   1 <= ih -> ih < two64 ->
-  forallb plain_op ops = true -> mrun (ms_init ih ivs) ops = Ok (s', ios) ->
+  forallb no_restart ops = true -> mrun (ms_init ih ivs) ops = Ok (s', ios) ->
   Forall ev_ok (st_ev (ms_k s')) ->
   mstep s' MSMRead = Ok (s'', c, IOEmpty) ->
   forall vid, vid = ViewIDVoting \/ vid = ViewIDCommitting ->
@@ -2448,8 +2567,8 @@ Proof.
     apply (past_below_get3 _ _ vid B4). split; congruence. }
   destruct (N.eq_dec (smm_last (m_sm (ms_m s''))) (v_ver (get3 (views (ms_k s'')) vid))) as [E1|Ne]; [exact E1|].
   exfalso. assert (Hlt : smm_last (m_sm (ms_m s'')) < v_ver (get3 (views (ms_k s'')) vid)) by lia.
-  pose proof (HCI vid Hvid Vh Vr Hlt) as Eo.
-  apply (sm_output_none _ Ho); rewrite Eo; assumption.
+  destruct (HCI vid Hvid Vh Vr Hlt) as (Oh&Or&Ov).
+  apply (sm_output_none _ Ho Oh Or). rewrite Ov. exact Hlt.
 Qed.
 
 (** * What is false of the model *)
